@@ -537,7 +537,25 @@ def tamper(batch, res):
         recv_name = "server" if sender == "client" else "client"
         R = ls.conn(recv_name)
         dcount += 1
-        # tamper only once the receiver object exists (the very first client Initial creates it)
+        if R is None and recv_name == "server" and batch["role"] == "server" and flight != "retry":
+            # server in FIRSTFLIGHT: the front-end has created the connection object for this destination
+            # connection ID; altered copies of the client's first Initial reach it before the genuine one
+            ls.front_end(data)
+            R = ls.server
+            res.count("firstflight_server_tampered")
+            # the connection object lazily builds its TLS context and packet spaces on the first long-header packet
+            # it sees, authentic or not; that is not observable through the API, so let a first altered copy do it
+            # and compare every further altered copy against the state it left
+            warm = bytearray(data)
+            # ... altered in the destination connection ID (which the Initial keys derive from), the source
+            # connection ID, or the payload, depending on the seed
+            wpos = [6 + rng.randrange(0, max(1, data[5])), 7 + data[5] + rng.randrange(0, 8), len(data) - 1][batch["seed"] % 3]
+            warm[wpos] ^= 1 << rng.randrange(0, 8)
+            res.count("firstflight_warmup_" + ["dcid", "scid", "payload"][batch["seed"] % 3])
+            try:
+                R.receive_datagram(bytes(warm), ls.simnet.CLIENT_ADDR, now=ls.now)
+            except Exception:
+                res.count("obs_altered_copy_raised")
         if R is not None and dcount <= max_dgrams and (batch["role"] == recv_name or flight == "retry"):
             for off, ln, view in split_packets(data, views):
                 pkt = data[off : off + ln]
